@@ -12,6 +12,7 @@ open Lean Pywbem.Proto Pywbem.Model.CimTypes Pywbem.Model.DateTime Pywbem.Model.
       DT = {"kind":"ts","f":[y,mo,d,h,mi,s,us],"off":"<int>","prec":n|null} | {"kind":"iv","f":["<days>",secs,us],"prec":n|null}
   {"op":"real","s":["<%.17G text>",…]}  → {"ok":["<fixed text>",…]}
   {"op":"cv","v":val,"t":T|null}        → {"ok":val} | {"exc":…}
+  {"op":"unp","items":[{"s":[cp…],"pf":"<bits>"|null,"t":T},…]} → {"ok":[val|{"exc":…},…]}   (TupleParser.unpack_numeric)
   {"op":"limits"}                        → the limits table, config switch and format digits the model uses -/
 
 def parseArg (j : Json) : Arg :=
@@ -184,6 +185,15 @@ def handle (j : Json) : Json :=
       | .sc s => Json.mkObj [("ok", scToJson s)]
       | .list l => Json.mkObj [("ok", Json.mkObj [("k", "list"), ("l", Json.arr (l.map scToJson).toArray)])])
       (cimvalue env v t)
+  | some "unp" =>
+    let outs := (getArr j "items").map (fun it =>
+      let t : NumTy := match getStr it "t" with
+        | some "real32" => .real32
+        | some "real64" => .real64
+        | some n => .int ((IntTy.ofName? n).getD .uint8)
+        | none => .real64
+      exceptJ scToJson (unpackNumeric ((getInt it "pf").map Int.toNat) ((getChars it "s").getD []) t))
+    Json.mkObj [("ok", Json.arr outs.toArray)]
   | some "limits" =>
     Json.mkObj [("limits", Json.arr (IntTy.all.map (fun t =>
         Json.arr #[Json.str t.name, intToJson t.lo, intToJson t.hi])).toArray),
